@@ -33,6 +33,8 @@ class Callee:
           'inline'   the callee's real body is executed symbolically
           'contract' use the callee's own contract (assert pre, assume post)
           'custom'   python handler(ex, node, args, kwargs) -> value
+          'attr'     attribute of a ref: uninterpreted function of the object (ret = kind)
+          'attrfn'   attribute of a ref computed by handler(ex, None, [obj], {}) (may branch on the object's type)
     """
     kind: str
     ret: str | None = "ref"          # result kind: 'str','int','bool','ref','none','list[str]',...
